@@ -178,6 +178,19 @@ func buildHistories(cs *lab.Case, long int) [][]proto.Step {
 			})
 		}
 	}
+	// deep right recursion: a list of several hundred items keeps input, token count and tree
+	// small, while the sub-trees a packrat table remembers (one per suffix of the list) add up
+	// to far more records than a 16-bit integer counts. Whatever a parser stores per memoised
+	// sub-tree must not be sized by the instantiating type.
+	{
+		if big, body := pumpRecursive(cs); big != "" {
+			out = append(out, []proto.Step{
+				{Entry: 0, Input: proto.QStr(big)},
+				{Entry: 0, Input: proto.QStr(body)},
+				{Entry: 0, Input: proto.QStr(big)},
+			})
+		}
+	}
 	// a history that switches the entry rule between steps
 	if len(cs.G.Rules) >= 2 && len(cs.Inputs) >= 2 {
 		var mixed []proto.Step
@@ -187,6 +200,87 @@ func buildHistories(cs *lab.Case, long int) [][]proto.Step {
 		out = append(out, mixed)
 	}
 	return out
+}
+
+// nodeDepth is the height of a derivation tree.
+func nodeDepth(n *refpeg.Node) int {
+	type fr struct {
+		n *refpeg.Node
+		d int
+	}
+	best := 0
+	st := []fr{{n, 1}}
+	for len(st) > 0 {
+		f := st[len(st)-1]
+		st = st[:len(st)-1]
+		if f.n == nil {
+			continue
+		}
+		if f.d > best {
+			best = f.d
+		}
+		for _, k := range f.n.Kids {
+			st = append(st, fr{k, f.d + 1})
+		}
+	}
+	return best
+}
+
+// pumpRecursive looks for an accepted input of the first rule that begins with a period u
+// (u^3 v is accepted as u v is) whose repetition deepens the derivation (recursion, not a
+// loop), and returns u^k v with k in the hundreds together with the input it came from. The
+// memo-free reference must decide it within a small step budget, so every parser mode can.
+func pumpRecursive(cs *lab.Case) (big, body string) {
+	full := func(in []rune, budget int) (refpeg.Result, bool) {
+		r := refpeg.Run(cs.G, 0, in, budget)
+		return r, !r.Budget && !r.Unspecified && r.OK && r.End == len(in)
+	}
+	rep := func(head, u, tail []rune, k int) []rune {
+		b := append([]rune{}, head...)
+		for i := 0; i < k; i++ {
+			b = append(b, u...)
+		}
+		return append(b, tail...)
+	}
+	for _, q := range cs.Inputs {
+		in := []rune(string(q))
+		if len(in) < 1 || len(in) > 16 {
+			continue
+		}
+		r0, ok := full(in, 20000)
+		if !ok {
+			continue
+		}
+		d0 := nodeDepth(r0.Root)
+		// a period is a piece of the accepted text, possibly followed by a separator the
+		// sample happens not to contain (a one-item list has none)
+		for i := 0; i < len(in); i++ {
+			for j := i + 1; j <= len(in) && j <= i+4; j++ {
+				for _, sep := range []string{"", ",", " "} {
+					u := append(append([]rune{}, in[i:j]...), []rune(sep)...)
+					r3, ok := full(rep(in[:i], u, in[i:], 3), 40000)
+					if !ok || nodeDepth(r3.Root) < d0+2 {
+						continue
+					}
+					for _, k := range []int{700, 450} {
+						if k*len(u) > 5000 {
+							continue
+						}
+						b := rep(in[:i], u, in[i:], k)
+						r, ok := full(b, 400000)
+						if !ok || r.Stats.Completed > 20000 || len(refpeg.Tokens(r.Root)) > 3000 || nodeDepth(r.Root) < k {
+							continue
+						}
+						return string(b), string(in)
+					}
+				}
+			}
+		}
+	}
+	if os.Getenv("VERIF_DEBUG_PUMP") != "" && cs.Profile == "listy" {
+		fmt.Fprintf(os.Stderr, "---- no pump for\n%s\ninputs %q\n", cs.G.String(), cs.Inputs)
+	}
+	return "", ""
 }
 
 func histString(cs *lab.Case, h []proto.Step) string {
@@ -354,6 +448,9 @@ func histNT(cs *lab.Case, h []proto.Step) (nt bool, classes []string) {
 	if memoSteps >= 2 {
 		classes = append(classes, "nt_memo_hits_in_2plus_steps")
 	}
+	if len(h) == 3 && len(h[0].Input) >= 400 && len(h[0].Input) <= 6000 && h[0].Input == h[2].Input {
+		classes = append(classes, "deep_recursion_memo_volume_over_16_bits")
+	}
 	return failThenOK && longShort || repeated && (failThenOK || longShort), classes
 }
 
@@ -362,7 +459,7 @@ func runC12(c *drv.Ctx) error {
 	firstID := 0
 	for chunk := 0; chunk < chunks && len(c.Violations) == 0; chunk++ {
 		rejected := 0
-		o := lab.CollectOpts{N: c.Pick(40, 120), Profiles: []string{"backtracky", "erry", "actiony", "deep", "plain"}, Inputs: 24, Hostile: true,
+		o := lab.CollectOpts{N: c.Pick(40, 120), Profiles: []string{"backtracky", "erry", "actiony", "deep", "plain", "listy"}, Inputs: 24, Hostile: true,
 			Histories: 2, FirstID: firstID, Rejected: &rejected, Long: chunk%2 == 1}
 		cases := lab.Collect(drv.ShardSeed(c.Seed, "lab-C12", chunk), o)
 		firstID += len(cases)
